@@ -45,7 +45,7 @@ impl Report {
         }
     }
     pub fn oracle_fail(&mut self, case: &str, what: &str, detail: Value) {
-        if self.oracle_failures.len() < 50 {
+        if self.oracle_failures.len() < 400 {
             self.oracle_failures
                 .push(json!({"case": case, "what": what, "detail": detail}));
         }
